@@ -113,16 +113,16 @@ def u1_realloc_window(prog):
                         if k not in reported:
                             reported.add(k)
                             r.viol('U1', key + '/realloc-runs-user-code/' + e['name'], fn.loc(e['ln']),
-                                   'Vec::%s on a rebuilt column both runs element code (%s) and may move the buffer before the slot is updated: a panic leaves the column slot pointing at a freed or resized buffer' % (e['name'], ELEMENT_CODE[e['name']]))
+                                   'Vec::%s on a rebuilt column both runs element code (%s) and may move the buffer before the slot is updated: a panic leaves the column slot pointing at a freed or resized buffer' % (e['name'], ELEMENT_CODE[e['name']]), tag=fn.name)
                     for (ui, kind, ue) in us:
                         if i < ui < end:
                             k = 'win:%s:%s' % (e['name'], kind)
                             if k not in reported:
                                 reported.add(k)
                                 r.viol('U1', key + '/user-code-in-window/%s/%s' % (e['name'], kind), fn.loc(ue.get('ln')),
-                                       'user code (%s) can unwind after Vec::%s may have moved the column buffer and before the slot is written back' % (kind, e['name']))
+                                       'user code (%s) can unwind after Vec::%s may have moved the column buffer and before the slot is written back' % (kind, e['name']), tag=fn.name)
         if found:
-            r.inst(key)
+            r.inst(key, tag=fn.name)
     return r
 
 
@@ -139,7 +139,7 @@ def u2_length_window(prog):
     for fn, imp in walk_fns(prog):
         it, paths = traces(prog, fn)
         key = fn_key(fn, imp)
-        r.inst(key)
+        r.inst(key, tag=fn.name)
         if fn.name in FREE_ROLE:
             continue
         shr = {}
@@ -162,7 +162,7 @@ def u2_length_window(prog):
             for sname in sorted(shr):
                 for kind in sorted(kinds):
                     r.viol('U2', '%s/%s/%s/%s' % (cname, fn.name, sname, kind), fn.loc(shr[sname]['ln']),
-                           'in %s (called from %s) user code (%s) can unwind after/while Vec::%s changed a column\'s contents but before the archetype length is published: the archetype stays reachable with a stale length (double drop later)' % (fn.name, cname, kind, sname))
+                           'in %s (called from %s) user code (%s) can unwind after/while Vec::%s changed a column\'s contents but before the archetype length is published: the archetype stays reachable with a stale length (double drop later)' % (fn.name, cname, kind, sname), tag=fn.name)
     return r
 
 
@@ -177,7 +177,7 @@ def u3_raw_element_ops(prog):
     for fn, imp in walk_fns(prog):
         it, paths = traces(prog, fn)
         key = fn_key(fn, imp)
-        r.inst(key)
+        r.inst(key, tag=fn.name)
         seen = set()
         for p in paths:
             for e in p.events:
@@ -187,7 +187,7 @@ def u3_raw_element_ops(prog):
                     if col and (e['name'], 'raw') not in seen:
                         seen.add((e['name'], 'raw'))
                         r.viol('U3', key + '/raw-element-op/' + e['name'], fn.loc(e['ln']),
-                               'explicit %s on a live column element: if user code unwinds between destroying and re-initialising the slot the value is dropped twice' % e['name'])
+                               'explicit %s on a live column element: if user code unwinds between destroying and re-initialising the slot the value is dropped twice' % e['name'], tag=fn.name)
                 if e['k'] in ('ptr_write', 'ptr_read') and fn.name not in FREE_ROLE:
                     s = e.get('dst') or e.get('src')
                     root = s
@@ -195,12 +195,12 @@ def u3_raw_element_ops(prog):
                         root = root[1]
                     if root[0] == 'elemf' and (e['k'], 'col') not in seen:
                         seen.add((e['k'], 'col'))
-                        r.viol('U3', key + '/raw-element-op/' + e['k'], fn.loc(e['ln']), 'raw %s directly on a column buffer (bypassing the rebuilt Vec)' % e['k'])
+                        r.viol('U3', key + '/raw-element-op/' + e['k'], fn.loc(e['ln']), 'raw %s directly on a column buffer (bypassing the rebuilt Vec)' % e['k'], tag=fn.name)
                 if e['k'] == 'forget' and e['value'][0] in ('vec', 'md', 'fresh') and ('forget', 0) not in seen:
                     seen.add(('forget', 0))
-                    r.viol('U3', key + '/forget', fn.loc(e['ln']), 'mem::forget of a column Vec: until the forget is reached, unwinding drops the live column (use ManuallyDrop at creation)')
+                    r.viol('U3', key + '/forget', fn.loc(e['ln']), 'mem::forget of a column Vec: until the forget is reached, unwinding drops the live column (use ManuallyDrop at creation)', tag=fn.name)
                 if e['k'] == 'vec_method' and e['vec'][0] == 'vec' and e.get('unwrapped') and fn.name not in FREE_ROLE and ('unwrapped', e['name']) not in seen:
                     seen.add(('unwrapped', e['name']))
                     r.viol('U3', key + '/unwrapped-owner/' + e['name'], fn.loc(e['ln']),
-                           'Vec::%s is called on a rebuilt column Vec that is not wrapped in ManuallyDrop: if it (or anything before the wrap) unwinds, the live column is freed by the temporary' % e['name'])
+                           'Vec::%s is called on a rebuilt column Vec that is not wrapped in ManuallyDrop: if it (or anything before the wrap) unwinds, the live column is freed by the temporary' % e['name'], tag=fn.name)
     return r
